@@ -11,7 +11,7 @@ from run1 import load
 from run2 import mk_runtime, json_eq
 
 A, KEYS, STRS = 2, ['a', 'b'], ['', 'a', 'b']
-LIMIT = 60
+LIMIT = 40
 
 VIDX = {'Null': 0, 'String': 1, 'Bool': 2, 'Number': 3, 'Array': 4, 'Object': 5, 'Expref': 6}
 NUMS = None   # None: fully symbolic numbers; else list of python numbers to choose from
